@@ -177,6 +177,15 @@ class OpCase:
             gs.append((oo, g))
         for oo, g in gs:
             oo.backward(Tn(g))
+        if self.variant.get("twice"):
+            # the same graph differentiated a second time with another upstream gradient: what backward saved for itself must
+            # have survived the first call, and the leaves accumulate the second VJP on top of the first
+            again = []
+            for k, (oo, g) in enumerate(list(gs)):
+                h = env.arr("h%d" % k, oo.shape, np.dtype(gdtype) if gdtype else oo.dtype, lo=-2, hi=2)
+                oo.backward(Tn(h))
+                again.append((oo, h))
+            gs = gs + again
         out.vjp = dict(outs=[oo.data for oo, _ in gs], gs=[g for _, g in gs],
                        inputs=[(sp.label, t.data, t._grad, t.requires_grad) for sp, t in zip(specs, ts)])
         out.notes["names"] = names
